@@ -55,3 +55,33 @@ pub fn run(seed: u64, tier: &str, out: &mut Out) {
         out.emit(&case, &format!("line={} msg={} prefix={} ORACLE {verdict}", show(&line), show(&m), show(&p)));
     }
 }
+
+/// C16C — tab width and texts set from two threads at once: in every round one thread sets a message (or prefix) with TABs
+/// while another changes the tab width (both released together by a barrier); when both calls have returned, the getter and
+/// the rendered line must be expanded with the tab width that is in force — whichever call went first.
+pub fn run_concurrent(seed: u64, tier: &str, out: &mut Out) {
+    use std::sync::{Arc, Barrier};
+    let mut rng = Rng::new(seed ^ 0x16c);
+    let rounds = if tier == "thorough" { 60_000 } else { 4_000 };
+    let rec = Recorder::new(4, 200, false);
+    let pb = ProgressBar::with_draw_target(Some(10), ProgressDrawTarget::term_like(Box::new(rec.clone())));
+    pb.set_style(ProgressStyle::with_template("{prefix}|{msg}").unwrap());
+    let (b1, b2) = (Arc::new(Barrier::new(3)), Arc::new(Barrier::new(3)));
+    let plan: Vec<(bool, usize)> = (0..rounds).map(|i| (rng.chance(1, 2), [2usize, 4, 8, 3][i % 4])).collect();
+    let (pa, pw) = (plan.clone(), plan.clone());
+    let (pba, pbw) = (pb.clone(), pb.clone());
+    let (a1, a2, w1, w2) = (b1.clone(), b2.clone(), b1.clone(), b2.clone());
+    let ta = std::thread::spawn(move || for (i, (msg, _)) in pa.iter().enumerate() { a1.wait(); let t = format!("a\tb{i}"); if *msg { pba.set_message(t) } else { pba.set_prefix(t) } a2.wait(); });
+    let tw = std::thread::spawn(move || for (_, w) in pw.iter() { w1.wait(); pbw.set_tab_width(*w); w2.wait(); });
+    let mut verdict = String::from("ok");
+    let mut bad = 0usize;
+    for (i, (msg, w)) in plan.iter().enumerate() {
+        b1.wait(); b2.wait();
+        let got = if *msg { pb.message() } else { pb.prefix() };
+        let want = format!("a{}b{i}", " ".repeat(*w));
+        if got != want { bad += 1; if verdict == "ok" { verdict = format!("FAIL stale-tab-width round {i}: {} set concurrently with set_tab_width({w}) reads {got:?}, expected {want:?}", if *msg { "message" } else { "prefix" }); } }
+    }
+    let _ = (ta.join(), tw.join());
+    std::mem::forget(pb);
+    out.emit(&format!("NOMODEL TABRACE rounds={rounds}"), &format!("stale={bad} ORACLE {verdict}"));
+}
